@@ -126,7 +126,22 @@ var c03 = Register("C03", "C03.quorem", func(a c03Args) *Violation {
 })
 
 func genQuoRemPair(t *rapid.T) (D, D) {
-	switch ir(t, 0, 12, "pairKind") {
+	switch ir(t, 0, 13, "pairKind") {
+	case 13:
+		// a divisor that fills one word almost completely (10^19 .. 2^64) under a short dividend far above it: a
+		// single round of the long division then yields 20 digits, i.e. a partial quotient of 2^64 or more
+		cy := new(big.Int).Add(ref.Pow10(19), new(big.Int).SetUint64(u64(t, "cyLow")%8446744073709551615))
+		cx := genDigits(t, ir(t, 1, 20, "cxLen"))
+		if cx.Sign() == 0 {
+			cx.SetInt64(45)
+		}
+		ey := genExp(t)
+		g := ir(t, 20, 80, "gap")
+		ex := ey + g
+		if ex > ref.Emax {
+			ex, ey = ref.Emax, ref.Emax-g
+		}
+		return DFin(genSign(t), cx, ex), DFin(genSign(t), cy, clampExp(ey))
 	case 12:
 		// a quotient longer than the format whose first 35 digits lie within 2^64 of the largest coefficient (the
 		// hand-over between the stages of the long division and every "is there room for another digit" test
